@@ -334,20 +334,20 @@ func init() {
 				if !r.NoReset {
 					resetSingletons()
 				}
-				o := &optObs{}
-				o.Panic = nd.Guard(func() {
+				first, second := &optObs{}, &optObs{}
+				second.Panic = nd.Guard(func() {
 					ls, err := cliTargets(r.First, r.Second)
 					if err != nil {
 						s := err.Error()
-						o.TErr = &s
+						second.TErr = &s
 						return
 					}
-					first := &optObs{}
-					handle(ls[0], keys, first) // backend of target 1
-					o.CliOpts = ls[1]
-					handle(ls[1], keys, o) // backend of target 2
+					first.CliOpts = ls[0]
+					handle(ls[0], keys, first) // backend of target 1 (generates before target 2 starts)
+					second.CliOpts = ls[1]
+					handle(ls[1], keys, second) // backend of target 2
 				})
-				res = o
+				res = map[string]*optObs{"first": first, "second": second}
 			default:
 				return fmt.Errorf("line %d: unknown op %q", n, r.Op)
 			}
